@@ -193,23 +193,6 @@ theorem derive_builder (H) (σ : State) (_wf : WF σ) (src : Nat) (t : Tag) (ht'
     simp only [c1, c2, decide_true, decide_false, Bool.or_true, Bool.or_false, Bool.false_or, Bool.true_or, if_true, if_false,
       Bool.false_eq_true, Bool.or_self]
 
-theorem Cell_to_builder_eq (H) (σ : State) (wf : WF σ) (self : Nat) (h : σ.has self .cell = true) :
-    Py.Heap.result σ (Cell_to_builder H σ self) = step H σ (.derive self .builder) := by
-  rw [derive_builder H σ wf self .cell (Or.inl rfl) h, ← builder_core H σ wf self .cell (Or.inl rfl) h]
-  simp only [Cell_to_builder]
-  by_cases c0 : ((σ.obj self).kind != -1) = true
-  · simp [c0, Py.Heap.result]
-  · simp only [c0]; rfl
-
-theorem Slice_to_builder_eq (H) (σ : State) (wf : WF σ) (self : Nat) (h : σ.has self .slice = true) :
-    Py.Heap.result σ (Slice_to_builder H σ self) = step H σ (.derive self .builder) := by
-  rw [derive_builder H σ wf self .slice (Or.inr rfl) h, ← builder_core H σ wf self .slice (Or.inr rfl) h]
-  simp only [Slice_to_builder]
-  by_cases c0 : (σ.obj self).kind = -1
-  · simp only [c0]; rfl
-  · have : ((σ.obj self).kind != -1) = true := by simpa using c0
-    simp [c0, this, Py.Heap.result]
-
 /-! ## loads and stores (session 5): the regenerated mutating methods are the model's own transitions -/
 
 /-- `Builder.store_ref(ref)` = the model's `storeRef`: raises exactly when the builder's list already has 4 entries, otherwise the
@@ -274,12 +257,10 @@ theorem Builder_store_uint_eq (H) (σ : State) (self : Nat) (v : Int) (n : Nat) 
 
 /-- `Builder.store_cell(cell)` = the model's `storeFrom`: references overflow checked first, then the bits overflow; then the builder's
 OWN array gets the cell's bits and its OWN list the ELEMENTS of the cell's list - neither of the cell's containers is kept. -/
-theorem Builder_store_cell_eq (H) (σ : State) (wf : WF σ) (self cell : Nat) (h : σ.has self .builder = true) (hc : σ.has cell .cell = true) :
+theorem Builder_store_cell_core (H) (σ : State) (self cell : Nat) (h : σ.has self .builder = true) (hc : σ.has cell .cell = true)
+    (ho : (σ.obj self).off = 0) (hco : (σ.obj cell).off = 0) :
     Py.Heap.resultUnit σ (Builder_store_cell H σ self cell) = step H σ (.storeFrom self cell) := by
-  obtain ⟨hi, ht⟩ := has_lt h
   obtain ⟨hci, hct⟩ := has_lt hc
-  have ho : (σ.obj self).off = 0 := wf.off0 self hi (by rw [ht]; decide)
-  have hco : (σ.obj cell).off = 0 := wf.off0 cell hci (by rw [hct]; decide)
   have hu : σ.has cell .ubits = false := by simp [State.has, hct]
   simp only [step, h, hc, hu, if_true, Bool.true_or, Bool.false_eq_true, if_false, Builder_store_cell, Builder_store_bits,
     Py.Heap.extendBits?, Py.Heap.extendRefs, State.bitsOf, State.refsOf, ho, hco, List.drop_zero, decide_eq_true_eq]
@@ -288,6 +269,21 @@ theorem Builder_store_cell_eq (H) (σ : State) (wf : WF σ) (self cell : Nat) (h
   · by_cases h2 : (σ.bitBuf (σ.obj self).bitsId).length + (σ.bitBuf (σ.obj cell).bitsId).length > 1023
     · simp [h1, h2, Py.Heap.resultUnit]
     · simp [h1, h2, Py.Heap.resultUnit, State.setB, State.setR]
+
+theorem Builder_store_cell_eq (H) (σ : State) (wf : WF σ) (self cell : Nat) (h : σ.has self .builder = true) (hc : σ.has cell .cell = true) :
+    Py.Heap.resultUnit σ (Builder_store_cell H σ self cell) = step H σ (.storeFrom self cell) := by
+  obtain ⟨hi, ht⟩ := has_lt h
+  obtain ⟨hci, hct⟩ := has_lt hc
+  exact Builder_store_cell_core H σ self cell h hc (wf.off0 self hi (by rw [ht]; decide)) (wf.off0 cell hci (by rw [hct]; decide))
+
+/-- `store_cell` returns its receiver -/
+theorem Builder_store_cell_ret (H) (σ σ' : State) (b c r : Nat) (h : Builder_store_cell H σ b c = some (σ', r)) : r = b := by
+  simp only [Builder_store_cell, Builder_store_bits] at h
+  split at h
+  · cases h
+  · cases he : Py.Heap.extendBits? σ (σ.obj b).bitsId (σ.bitBuf (σ.obj c).bitsId) with
+    | none => simp [he] at h
+    | some s => simp [he] at h; exact h.2.symm
 
 /-- `Slice.preload_bits(n)` = the model's `peekBits`: a NEW array with the first `n` bits; the slice is untouched. -/
 theorem Slice_preload_bits_eq (H) (σ : State) (self n : Nat) (h : σ.has self .slice = true) :
@@ -363,7 +359,7 @@ source list `S`, there is room for `n` more entries and the source list has them
 `S[i], .., S[i+n-1]` appended in place; nothing else changes. -/
 theorem store_loop (H) (self src : Nat) (n : Nat) : ∀ (i : Nat) (τ : State),
     (τ.obj self).refsId ≠ (τ.obj src).refsId →
-    (τ.refBuf (τ.obj self).refsId).length + n ≤ 4 → i + n ≤ (τ.refBuf (τ.obj src).refsId).length →
+    (τ.refBuf (τ.obj self).refsId).length + n ≤ 4 → (n = 0 ∨ i + n ≤ (τ.refBuf (τ.obj src).refsId).length) →
     Py.Heap.forFuel n i τ (fun i τ => (Py.Heap.refAt? τ (τ.obj src).refsId i).bind fun c =>
         (Builder_store_ref H τ self c).bind fun r => some r.1) =
       some (τ.setR (τ.obj self).refsId (τ.refBuf (τ.obj self).refsId ++ ((τ.refBuf (τ.obj src).refsId).drop i).take n)) := by
@@ -376,6 +372,7 @@ theorem store_loop (H) (self src : Nat) (n : Nat) : ∀ (i : Nat) (τ : State),
       (by funext j; by_cases hj : j = (τ.obj self).refsId <;> simp [State.setR, hj]) rfl rfl rfl
   | succ n ih =>
     intro i τ hne hroom hlen
+    have hlen : i + (n + 1) ≤ (τ.refBuf (τ.obj src).refsId).length := by omega
     have hi : i < (τ.refBuf (τ.obj src).refsId).length := by omega
     have hget : (τ.refBuf (τ.obj src).refsId)[i]? = some (τ.refBuf (τ.obj src).refsId)[i] := List.getElem?_eq_getElem hi
     have hroom' : ¬ (τ.refBuf (τ.obj self).refsId).length ≥ 4 := by omega
@@ -385,7 +382,7 @@ theorem store_loop (H) (self src : Nat) (n : Nat) : ∀ (i : Nat) (τ : State),
     simp only [Py.Heap.forFuel]
     rw [hstep, Option.bind_some]
     have hne' : (τ.obj src).refsId ≠ (τ.obj self).refsId := Ne.symm hne
-    rw [ih (i + 1) _ (by simpa [State.setR] using hne) (by simp [State.setR]; omega) (by simp [State.setR, hne']; omega)]
+    rw [ih (i + 1) _ (by simpa [State.setR] using hne) (by simp [State.setR]; omega) (Or.inr (by simp [State.setR, hne']; omega))]
     congr 1
     have hdrop : (τ.refBuf (τ.obj src).refsId).drop i = (τ.refBuf (τ.obj src).refsId)[i] :: (τ.refBuf (τ.obj src).refsId).drop (i + 1) :=
       List.drop_eq_getElem_cons hi
@@ -402,12 +399,11 @@ theorem store_loop (H) (self src : Nat) (n : Nat) : ∀ (i : Nat) (τ : State),
 checked first, then the bits overflow; then the builder's OWN array gets the slice's remaining bits and its OWN list the remaining
 ELEMENTS `refs[ref_offset:]` one by one - neither of the slice's containers is kept.  Needs: the builder's list is not the slice's
 list (`Sep`; in `to_builder` the builder is new) and `ref_offset ≤ len(refs)` (`load_ref` never moves past the end). -/
-theorem Builder_store_slice_eq (H) (σ : State) (wf : WF σ) (self src : Nat) (h : σ.has self .builder = true) (hs : σ.has src .slice = true)
-    (hne : (σ.obj self).refsId ≠ (σ.obj src).refsId) (hoff : (σ.obj src).off ≤ (σ.refBuf (σ.obj src).refsId).length) :
+theorem Builder_store_slice_core (H) (σ : State) (self src : Nat) (h : σ.has self .builder = true) (hs : σ.has src .slice = true)
+    (ho : (σ.obj self).off = 0) (hne : (σ.obj self).refsId ≠ (σ.obj src).refsId)
+    (hoff : (σ.obj src).off ≤ (σ.refBuf (σ.obj src).refsId).length ∨ (σ.refBuf (σ.obj self).refsId).length = 0) :
     Py.Heap.resultUnit σ (Builder_store_slice H σ self src) = step H σ (.storeFrom self src) := by
-  obtain ⟨hi, ht⟩ := has_lt h
   obtain ⟨hsi, hst⟩ := has_lt hs
-  have ho : (σ.obj self).off = 0 := wf.off0 self hi (by rw [ht]; decide)
   have hu : σ.has src .ubits = false := by simp [State.has, hst]
   simp only [step, h, hs, hu, if_true, Bool.or_true, Bool.false_eq_true, if_false, State.bitsOf, State.refsOf, ho, List.drop_zero,
     List.length_drop]
@@ -432,5 +428,80 @@ theorem Builder_store_slice_eq (H) (σ : State) (wf : WF σ) (self src : Nat) (h
       by_cases hj : j = (σ.obj self).refsId
       · simp [hj, List.take_of_length_le]
       · simp [hj]
+
+theorem Builder_store_slice_eq (H) (σ : State) (wf : WF σ) (self src : Nat) (h : σ.has self .builder = true) (hs : σ.has src .slice = true)
+    (hne : (σ.obj self).refsId ≠ (σ.obj src).refsId) (hoff : (σ.obj src).off ≤ (σ.refBuf (σ.obj src).refsId).length) :
+    Py.Heap.resultUnit σ (Builder_store_slice H σ self src) = step H σ (.storeFrom self src) := by
+  obtain ⟨hi, ht⟩ := has_lt h
+  exact Builder_store_slice_core H σ self src h hs (wf.off0 self hi (by rw [ht]; decide)) hne (Or.inl hoff)
+
+/-- `store_slice` returns its receiver -/
+theorem Builder_store_slice_ret (H) (σ σ' : State) (b c r : Nat) (h : Builder_store_slice H σ b c = some (σ', r)) : r = b := by
+  simp only [Builder_store_slice, Builder_store_bits] at h
+  split at h
+  · cases h
+  · cases he : Py.Heap.extendBits? σ (σ.obj b).bitsId (σ.bitBuf (σ.obj c).bitsId) with
+    | none => simp [he] at h
+    | some s =>
+      simp only [he, Option.bind_some] at h
+      generalize Py.Heap.forRange _ _ _ _ = q at h
+      cases q with
+      | none => simp at h
+      | some t => simp at h; exact h.2.symm
+
+/-! ### `to_builder`: `Builder()` then the REGENERATED `store_cell` / `store_slice` is `derive · builder` -/
+
+/-- a regenerated receiver-returning store that equals the model's `storeFrom`, used as the primitive `storeFrom?` -/
+theorem bind_as_prim (H) (σ : State) (b c : Nat) (f : Option (State × Nat)) (hr : ∀ σ' r, f = some (σ', r) → r = b)
+    (he : Py.Heap.resultUnit σ f = step H σ (.storeFrom b c)) :
+    (f.bind fun r => some (r.1, r.2)) = (Py.Heap.storeFrom? H σ b c).bind fun r => some (r, b) := by
+  unfold Py.Heap.storeFrom?
+  rw [← he]
+  cases f with
+  | none => simp [Py.Heap.resultUnit]
+  | some p =>
+    obtain ⟨σ', r⟩ := p
+    have := hr σ' r rfl
+    subst this
+    simp [Py.Heap.resultUnit]
+
+theorem Cell_to_builder_eq (H) (σ : State) (wf : WF σ) (self : Nat) (h : σ.has self .cell = true) :
+    Py.Heap.result σ (Cell_to_builder H σ self) = step H σ (.derive self .builder) := by
+  rw [derive_builder H σ wf self .cell (Or.inl rfl) h, ← builder_core H σ wf self .cell (Or.inl rfl) h]
+  obtain ⟨hi, ht⟩ := has_lt h
+  have hne : self ≠ σ.nObj := Nat.ne_of_lt hi
+  have hb1 : (Py.Heap.newBuilder σ).1.has (Py.Heap.newBuilder σ).2 .builder = true := by
+    simp [Py.Heap.newBuilder, State.has, State.push, State.allocB, State.allocR]
+  have hc1 : (Py.Heap.newBuilder σ).1.has self .cell = true := by
+    simp [Py.Heap.newBuilder, State.has, State.push, State.allocB, State.allocR, hne, ht]; exact decide_eq_true (Nat.lt_succ_of_lt hi)
+  have core := Builder_store_cell_core H (Py.Heap.newBuilder σ).1 (Py.Heap.newBuilder σ).2 self hb1 hc1
+    (by simp [Py.Heap.newBuilder, State.push, State.allocB, State.allocR, ObjRec.blank])
+    (by simpa [Py.Heap.newBuilder, State.push, State.allocB, State.allocR, hne] using wf.off0 self hi (by rw [ht]; decide))
+  have prim := bind_as_prim H _ _ _ _ (fun σ' r => Builder_store_cell_ret H _ σ' _ _ r) core
+  simp only [Cell_to_builder]
+  by_cases c0 : ((σ.obj self).kind != -1) = true
+  · simp [c0, Py.Heap.result]
+  · simp only [c0]; exact congrArg (Py.Heap.result σ) prim
+
+theorem Slice_to_builder_eq (H) (σ : State) (wf : WF σ) (self : Nat) (h : σ.has self .slice = true) :
+    Py.Heap.result σ (Slice_to_builder H σ self) = step H σ (.derive self .builder) := by
+  rw [derive_builder H σ wf self .slice (Or.inr rfl) h, ← builder_core H σ wf self .slice (Or.inr rfl) h]
+  obtain ⟨hi, ht⟩ := has_lt h
+  have hne : self ≠ σ.nObj := Nat.ne_of_lt hi
+  have hR : (σ.obj self).refsId ≠ σ.nRef := Nat.ne_of_lt (wf.idR self hi (by rw [ht]; rfl))
+  have hb1 : (Py.Heap.newBuilder σ).1.has (Py.Heap.newBuilder σ).2 .builder = true := by
+    simp [Py.Heap.newBuilder, State.has, State.push, State.allocB, State.allocR]
+  have hc1 : (Py.Heap.newBuilder σ).1.has self .slice = true := by
+    simp [Py.Heap.newBuilder, State.has, State.push, State.allocB, State.allocR, hne, ht]; exact decide_eq_true (Nat.lt_succ_of_lt hi)
+  have core := Builder_store_slice_core H (Py.Heap.newBuilder σ).1 (Py.Heap.newBuilder σ).2 self hb1 hc1
+    (by simp [Py.Heap.newBuilder, State.push, State.allocB, State.allocR, ObjRec.blank])
+    (by simp [Py.Heap.newBuilder, State.push, State.allocB, State.allocR, hne]; exact Ne.symm hR)
+    (Or.inr (by simp [Py.Heap.newBuilder, State.push, State.allocB, State.allocR]))
+  have prim := bind_as_prim H _ _ _ _ (fun σ' r => Builder_store_slice_ret H _ σ' _ _ r) core
+  simp only [Slice_to_builder]
+  by_cases c0 : (σ.obj self).kind = -1
+  · simp only [c0]; exact congrArg (Py.Heap.result σ) prim
+  · have : ((σ.obj self).kind != -1) = true := by simpa using c0
+    simp [c0, this, Py.Heap.result]
 
 end TonVerif.Proofs.SrcHeap
